@@ -1143,11 +1143,18 @@ class Run:
             kw['bad_command_limit'] = None
         if self.backend == 'maildir' and os.path.isdir('/dev/shm'):
             kw['where'] = '/dev/shm'
+        cleartext = spec.get('hash') == 'cleartext'
+        if cleartext:
+            from pysasl.hashing import Cleartext
+            kw['hash_context'] = Cleartext()
+            self.count('cleartext_scheme_runs')
         self.env = env = await make_env(self.backend, users=users,
                                         admins=ADMINS, **kw)
         env.config._tls_enabled = False
         self.pw = dict(PASSWORDS)
         self.pw.update({n: None for n in SPECIAL})
+        if cleartext:
+            self.pw['blank'] = ''
         setup_pw = dict(users)
         if self.backend == 'dict':
             self.pw['testuser'] = setup_pw['testuser'] = 'testpass'
@@ -1779,7 +1786,11 @@ class C09(Check):
                    'peer': rng.choice(['local', 'remote']),
                    'n': rng.choice([1, 2, 2, 3, 3, 4, 5, 6]),
                    'sleep': rng.random() < 0.15,
-                   'badlimit': rng.random() < 0.2}
+                   'badlimit': rng.random() < 0.2,
+                   # the supported cleartext scheme (no hashing): there the
+                   # empty stored secret of 'blank' does verify -- the empty
+                   # password -- and the missing one of 'ghost' never does
+                   'hash': 'cleartext' if i % 8 == 3 else 'builtin'}
             if i % 25 == 7:
                 yield {'seed': seed * 1_000_003 + 500_000 + i,
                        'listener': 'sieve' if rng.random() < 0.3 else 'imap',
